@@ -23,6 +23,8 @@ def norm_index(n, locals_def=None):
     """normalised text of an index expression."""
     t = unparse(strip_casts(n))
     t = t.replace(" ", "")
+    # a cast of a factor to a 64-bit integer type widens the arithmetic; it does not change which element the form designates
+    t = re.sub(r"\((?:orc_int64|orc_uint64|orc_intptr|long|longlong|ptrdiff_t|size_t|intptr_t)\)", "", t)
     while t.startswith("(") and t.endswith(")") and _balanced(t[1:-1]):
         t = t[1:-1]
     return t
